@@ -264,6 +264,9 @@ FaultDocs ==
   \cup { Doc1(<<FS("", top, <<F("", "name"), F("w", "wrong"), F("", "flags")>>), F("", "title")>>) : top \in {"a", "items", "matrix"} }
   \cup { Doc1(<<FS("", top, <<F("g", "nest"), F("", "n")>>), F("", "title")>>) : top \in {"a", "items"} }
   \cup { Doc1(<<FS("", "a", <<FS("", "peer", <<FS("", "peer", <<F("", "boom"), FS("s", "self", <<F("", "name")>>)>>)>>)>>)>>) }
+  \* a mutation whose resolver hands out a *ggql.Subscription for a String field
+  \cup { [ops |-> <<Op("M", "mutation", <<>>, <<F("", "leak"), FA("", "set", <<Arg("s", StrV("v"))>>)>>)>>, frags |-> <<>>],
+         [ops |-> <<Op("M", "mutation", <<>>, <<FS("", "a", <<F("", "name")>>), F("l", "leak")>>)>>, frags |-> <<>>] }
   \* one response key selected twice (written twice, through an inline fragment, through a spread): what fails below the
   \* later occurrence is reported like what fails below the first
   \cup { Doc1(<<FS("", top, <<F("", "name")>>), FS("", top, <<F("", "boom"), F("w", "wrong")>>)>>) : top \in {"a", "items"} }
